@@ -7,6 +7,8 @@ import (
 
 	"github.com/ipld/go-ipld-prime"
 	"github.com/ipld/go-ipld-prime/datamodel"
+
+	"github.com/ucan-wg/go-ucan/pkg/policy/limits"
 )
 
 // Match determines if the IPLD node satisfies the policy.
@@ -78,6 +80,11 @@ func matchStatement(cur Statement, node ipld.Node) (_ matchResult, leafMost Stat
 			}
 			if res == nil { // optional selector didn't match
 				return matchResultOptionalNoData, nil
+			}
+			if limits.ValidateIntegerBoundsIPLD(res) != nil {
+				// integers outside the safe bounds never equal a policy value
+				// (and DeepEqual panics on integers above MaxInt64)
+				return matchResultFalse, cur
 			}
 			return boolToRes(datamodel.DeepEqual(s.value, res))
 		}
